@@ -238,3 +238,8 @@ def check(cx):
                        "arm bb%d returns" % t,
                        "the %s arm of %s ends in a panic (todo!/unreachable!): a statement using it kills the "
                        "statement with an internal error (D13)" % (v["name"], f.id))
+
+    # ---- C05.5 (construct shared with C06.4) -----------------------------------------------------------------
+    from . import c06
+    cx.include(c06, {"C06.4"}, "C05.5", "shared with C06.4: join reordering and filter pushdown are applied to inner/cross joins only "
+               "(outer-join rows must be NULL-extended before WHERE predicates on the inner side are evaluated)", floor=3)
